@@ -44,6 +44,49 @@ PROPS = {
             "regexp FindStringIndex on the two literal class patterns returns the leftmost-longest match (assumed contract)",
         ],
     },
+    "C06": {
+        "level": "proof", "prove": True, "ground": [],
+        "bounded": {"search": "C06", "quick": "8s", "thorough": "120s",
+                    "what": "'no term is invented', 'every returned string extracts to itself' and 'the returned list satisfies the expression' are not under contract; they are checked by execution against the reference oracle on enumerated expressions (BOUNDED)"},
+        "assumptions": DEFS_BY_CODE + [
+            "proved: no term of the expression is missing from the result (for an arbitrary leaf x: leafOf(tree, x) ==> the canonical string of x occurs in the result) and the result is duplicate-free",
+            "canonical spelling: the returned string of a term is reconT of its tree (contract of reconstructedLicenseString); that the id inside is the list's spelling is C09",
+        ],
+    },
+    "C07": {
+        "level": "proof", "prove": True, "ground": [],
+        "bounded": {"search": "C07", "quick": "6s", "thorough": "60s",
+                    "what": "permutation / duplication invariance and monotonicity of the verdict, checked by execution on enumerated lists (BOUNDED cross-check of the stated meta-lemmas)"},
+        "assumptions": DEFS_BY_CODE + [
+            "proved: stringsToNodes yields, in order, the tree of every entry; the in-place sort+compaction keeps in the full-length slice exactly the canonical strings that were there; the verdict is sem(tree) with 'covered' = some node of that slice matches (C01)",
+            "stated, not mechanised: equal canonical strings denote equal terms (reconT is injective on terms over id characters; the design prototype discharges it with cvc5), an existential over the entries is invariant under permutation and duplication and monotone under extension, and sem is monotone in the covered predicate",
+        ],
+    },
+    "C08": {
+        "level": "other", "prove": False, "ground": ["onlyPairsShareGroup", "laterPairsShareGroup", "tableShape"],
+        "bounded": {"search": "C08", "quick": "15s", "thorough": "120s",
+                    "what": "for every id X of the active and deprecated lists: X / X-only and X+ / X-or-later are interchanged as expression and as allowed entry against every id of the same family (with and without '+', with and without exception) and unrelated ids, on the real code (exhaustive over the shipped tables within the time budget; BOUNDED)"},
+        "explanation": "Table part (ground evaluation on every run): every listed id X and the id that 'X-only' denotes are identical, share a version group, or are both outside the family table. Code part: '-or-later counts as +' and 'the lookup strips -or-later' are proved clauses of the parser / getLicenseRange contracts (checked under C02 / C05); which token a spelling produces (normalizeLicense's case analysis) is not under a functional contract, so the interchangeability of the spellings themselves is covered by the bounded execution over all listed ids.",
+        "assumptions": ["normalizeLicense's lexeme classification is not under a functional contract (bounded execution instead)"],
+    },
+    "C09": {
+        "level": "proof", "prove": True, "ground": ["foldUnique", "noOperatorPrefix", "tableShape"],
+        "bounded": {"search": "C09", "quick": "10s", "thorough": "60s",
+                    "what": "every listed license and exception id in upper, lower and mixed case: same validity, same ExtractLicenses output (list casing), mutual satisfaction with the canonical spelling (exhaustive over the shipped tables; BOUNDED)"},
+        "assumptions": [
+            "proved: inLicenseList finds an entry iff some entry equals the id up to letter case and returns the first such ENTRY (the list's spelling); EqualFold uninterpreted (reflexive)",
+            "ground: no two listed ids are equal up to case, none starts with an operator keyword",
+            "stated, not mechanised: the scanner uses a lexeme only through these lookups, its length and case-sensitive suffix tests (which the property excludes), so the token depends only on the fold class of the lexeme",
+        ],
+    },
+    "C10": {
+        "level": "proof", "prove": True, "ground": [],
+        "bounded": {"search": "C10", "quick": "6s", "thorough": "60s",
+                    "what": "Satisfies('(E) AND (F)') = Satisfies(E) && Satisfies(F), likewise OR, operand order, spacing and parentheses, on enumerated expressions and lists (BOUNDED cross-check)"},
+        "assumptions": DEFS_BY_CODE + [
+            "corollary: by C01 the verdict IS sem(tree, covered), a function of the Boolean function the tree denotes, and by C06 the extracted set contains every leaf; the obligations are those of C01 and C06 (listed again here); the spec-level lemma that sem is invariant under Boolean-algebra rewrites is not mechanised",
+        ],
+    },
     "C11": {
         "level": "proof", "prove": True,
         "ground": ["tableShape", "rangesEntriesListed", "rangesUniquePosition", "rangesOneFamilyShape", "rangesOneVersionPerStep", "rangesAscending", "rangesFamilyComplete"],
